@@ -480,6 +480,15 @@ def _replay_truncates_torn_tail(cx):
         # only on the arm taken when the reader reports the end of the log, not on corruption (repair handles that)
         in_loop = c.bb in loop_of(rb, rd[0].bb) or c.bb in rb.reachable_after([rd[0].bb])
         good = good or (from_offset and in_loop)
+        # the cut must not depend on how many complete records the segment holds: with none, the whole content is the torn tail
+        for cm in comparisons(rb):
+            if cm.condition_to_reach(c.bb) is None:
+                continue
+            for op in (cm.lhs, cm.rhs):
+                o = origin_of_operand(rb, op)
+                if any(x.startswith("Add") for x in o.ops) and not o.params and not o.calls:
+                    cx.bad("torn-tail-cut-conditional", "replay_wal cuts the torn tail only when a record counter passes a test: a segment whose FIRST record is torn keeps "
+                           "its stray bytes, the writer appends behind them and the session's commits are lost at the next recovery", cm.where())
     cx.note("replay_wal truncates the torn tail of the last segment: %s" % good)
     # and the writer is opened after that replay (rule_open_after_repair checks the order in Core::new / restore)
     return good
